@@ -225,6 +225,10 @@ def gen_program(tape, feat):
                             ctor_limit=tape.pick("ctor_limit", [None, 1000.0, 0.5]))
     if real and feat.get("kbint_sleep") and tape.flag("kbint_sleep", 1, 2):
         prog["kbint_sleep"] = tape.draw("kbint_sleep_ix", 6)
+    if feat.get("allow_empty") and prog.get("args", {}).get("doers") and tape.flag("empty_doers", 1, 6):
+        # do(doers=[]) on a scheduler that still holds the doers of an earlier use: the run is over the empty set
+        prog["stale"] = prog["roots"]
+        prog["roots"] = []
     return prog
 
 
@@ -241,7 +245,7 @@ def prog_readable(prog):
         return d
     return dict(doist=dict(tock=prog["T"], tyme=prog["t0"], limit=prog["limit"], real=prog["real"],
                            kbint_sleep=prog.get("kbint_sleep"), via_args=prog.get("args")),
-                roots=prog["roots"], spares=prog["spares"],
+                roots=prog["roots"], spares=prog["spares"], stale=prog.get("stale", []),
                 nodes=[node(prog["nodes"][k]) for k in sorted(prog["nodes"])])
 
 
@@ -642,6 +646,7 @@ def build(prog, res=None):
     doist = TDoist(tock=prog["T"], tyme=ctor_tyme, real=prog["real"], limit=ctor_limit)
     run.doist = doist
     roots = [make(r, doist) for r in prog["roots"]]
+    stale = [make(r, None) for r in prog.get("stale", [])]
     for s in prog["spares"]:
         if s not in run.objs:
             make(s, None)
@@ -649,6 +654,8 @@ def build(prog, res=None):
     run.do_kwargs = {}
     if args.get("doers"):
         run.do_kwargs["doers"] = roots
+        if stale:
+            doist.doers = stale      # left over from "earlier use"; do(doers=...) replaces them
     else:
         doist.doers = roots
     if args.get("limit") and prog["limit"] is not None:
